@@ -11,7 +11,7 @@ from vlib import ROOT, REPO, sh, log
 
 U32 = 1 << 32
 HI = (1 << 62) - 1
-MODES = ["Full", "DataIds", "OnlyTrees"]
+MODES = ["Full", "DataIds", "OnlyTrees", "Prune"]
 
 
 # ------------------------------------------------------------------ generation
@@ -181,8 +181,8 @@ def run_lines(exe, lines, mode=None, timeout=3000):
     return res
 
 
-def parse_modes(s, nq, with_iter=True):
-    """'M tt td (h g)* [I pack*]' repeated -> list of dicts (or 'panic')"""
+def parse_modes(s, nq, with_iter=True, ntok=2):
+    """'M tt td (h g [r])* [I pack*]' repeated -> list of dicts (or 'panic')"""
     toks = s.split()
     res, i = [], 0
     while i < len(toks):
@@ -192,7 +192,7 @@ def parse_modes(s, nq, with_iter=True):
         d = {"tt": int(toks[i + 1]), "td": int(toks[i + 2]), "q": [], "iter": None}
         i += 3
         for _ in range(nq):
-            d["q"].append((toks[i], toks[i + 1])); i += 2
+            d["q"].append(tuple(toks[i:i + ntok])); i += ntok
         if with_iter:
             assert toks[i] == "I", s[:200]
             i += 1
@@ -207,40 +207,67 @@ def parse_modes(s, nq, with_iter=True):
 def parse_oracle(s, nq):
     toks = s.split()
     assert toks[0] == "S"
-    o = {"tt": int(toks[1]), "td": int(toks[2]), "noov": toks[3] == "1", "homog": toks[4] == "1", "q": []}
-    i = 5
+    o = {"tt": int(toks[1]), "td": int(toks[2]), "noov": toks[3] == "1", "homog": toks[4] == "1",
+         "rtt": int(toks[5]), "rtd": int(toks[6]), "cfit": toks[7] == "1",
+         "att": int(toks[8]), "atd": int(toks[9]), "anoov": toks[10] == "1", "q": []}
+    i = 11
     for _ in range(nq):
         o["q"].append({"listed": toks[i] == "1", "lbt": toks[i + 1] == "1",
-                       "cands": [] if toks[i + 2] == "-" else toks[i + 2].split(",")})
-        i += 3
+                       "cands": [] if toks[i + 2] == "-" else toks[i + 2].split(","),
+                       "listed_any": toks[i + 3] == "1",
+                       "cands_any": [] if toks[i + 4] == "-" else toks[i + 4].split(",")})
+        i += 5
     return o
 
 
-def check_against_oracle(c, modes_res, orc, mode_names):
-    """The property itself, evaluated on the implementation's answers.  Returns list of (what, detail)."""
+def check_against_oracle(c, modes_res, orc, mode_names, release=False):
+    """The property itself, evaluated on the implementation's answers.  Returns list of (what, detail).
+    Block `Prune` is the index prune builds (both sections, trees only): its statement is
+    prune_index_has_iff_listed_anywhere.  release=True: wrapped totals, no pack-size panic."""
     bad = []
     for mname, r in zip(mode_names, modes_res):
+        prune = mname == "Prune"
         if r == "panic":
-            if orc["noov"]:
+            fits = orc["cfit"] if release else (orc["anoov"] if prune else orc["noov"])
+            if fits:
                 bad.append(("index construction panics on index files whose pack sizes fit u32", mname))
             continue
-        if r["tt"] != orc["tt"] or r["td"] != orc["td"]:
-            bad.append(("total_size differs from the sum of listed pack sizes", "%s: impl %d/%d, listed %d/%d" % (mname, r["tt"], r["td"], orc["tt"], orc["td"])))
-        for (tp, i), (h, g), o in zip(c["queries"], r["q"], orc["q"]):
-            retained = not (mname == "OnlyTrees" and tp == 1)
+        if prune:
+            want_tot = None if release else (orc["att"], orc["atd"])
+        else:
+            want_tot = (orc["rtt"], orc["rtd"]) if release else (orc["tt"], orc["td"])
+        if want_tot is not None and (r["tt"], r["td"]) != want_tot:
+            bad.append(("total_size differs from the sum of listed pack sizes" + (" (release build: wrapped header-derived sizes)" if release else ""),
+                        "%s: impl %d/%d, listed %d/%d" % (mname, r["tt"], r["td"], want_tot[0], want_tot[1])))
+        for (tp, i), q, o in zip(c["queries"], r["q"], orc["q"]):
+            h, g = q[0], q[1]
+            listed = o["listed_any"] if prune else o["listed"]
+            cands = o["cands_any"] if prune else o["cands"]
+            retained = not (mname in ("OnlyTrees", "Prune") and tp == 1)
             full = mname == "Full" or tp == 0
-            want = o["listed"] and retained
+            want = listed and retained
+            where = "listed anywhere (packs or packs_to_delete)" if prune else "listed in an unmarked pack of that type"
             if (h == "1") != want:
-                bad.append(("has() differs from 'listed in an unmarked pack of that type'", "%s: query %s %s: has=%s listed=%s" % (mname, "TD"[tp], i, h, o["listed"])))
+                bad.append(("has() differs from '%s'" % where, "%s: query %s %s: has=%s listed=%s" % (mname, "TD"[tp], i, h, listed)))
             if full:
-                if (g != "-") != o["listed"]:
-                    bad.append(("get_id() succeeds differently from 'listed in an unmarked pack of that type'", "%s: query %s %s: get_id=%s listed=%s" % (mname, "TD"[tp], i, g, o["listed"])))
+                if (g != "-") != listed:
+                    bad.append(("get_id() succeeds differently from '%s'" % where, "%s: query %s %s: get_id=%s listed=%s" % (mname, "TD"[tp], i, g, listed)))
                 elif g != "-":
                     tl, rest = g.split(":", 1)
-                    if tl != "TD"[tp] or rest not in o["cands"]:
-                        bad.append(("get_id() returns something that is not one of the listings", "%s: query %s %s: get_id=%s listings=%s" % (mname, "TD"[tp], i, g, o["cands"])))
+                    if tl != "TD"[tp] or rest not in cands:
+                        bad.append(("get_id() returns something that is not one of the listings", "%s: query %s %s: get_id=%s listings=%s" % (mname, "TD"[tp], i, g, cands)))
             elif g != "-":
                 bad.append(("get_id() answers in a mode that keeps no locations", "%s: query %s %s: %s" % (mname, "TD"[tp], i, g)))
+            if len(q) > 2:
+                # blob_from_backend: exactly the looked-up location goes to the backend read
+                rr = q[2]
+                if g == "-":
+                    if rr != "-":
+                        bad.append(("blob_from_backend reads although the blob is not in the index", "%s: query %s %s: read=%s" % (mname, "TD"[tp], i, rr)))
+                else:
+                    pk_off_len = ":".join(g.split(":")[1:4])
+                    if rr != "%d:%s" % (1 if tp == 0 else 0, pk_off_len):
+                        bad.append(("blob_from_backend does not read the listed location (pack, cacheable = tree, offset, length)", "%s: query %s %s: get_id=%s read=%s" % (mname, "TD"[tp], i, g, rr)))
     return bad
 
 
@@ -256,11 +283,17 @@ def diff_model(c, impl_res, model_res, orc, mode_names, with_iter=True):
         for (tp, i), qa, qb, o in zip(c["queries"], a["q"], b["q"], orc["q"]):
             if qa[0] != qb[0]:
                 d.append("%s: has %s %s impl %s model %s" % (mname, "TD"[tp], i, qa[0], qb[0]))
+            cands = o["cands_any"] if mname == "Prune" else o["cands"]
             if qa[1] != qb[1]:
-                ok = len(o["cands"]) > 1 and qa[1] != "-" and qb[1] != "-" and qa[1].split(":", 1)[0] == qb[1].split(":", 1)[0] \
-                     and qa[1].split(":", 1)[1] in o["cands"]
+                ok = len(cands) > 1 and qa[1] != "-" and qb[1] != "-" and qa[1].split(":", 1)[0] == qb[1].split(":", 1)[0] \
+                     and qa[1].split(":", 1)[1] in cands
                 if not ok:
                     d.append("%s: get_id %s %s impl %s model %s" % (mname, "TD"[tp], i, qa[1], qb[1]))
+            if len(qa) > 2 and len(qb) > 2:
+                # model r = c:pack:off:len:ulen, impl r = c:pack:off:len (ulen never reaches the backend)
+                mr_ = qb[2] if qb[2] == "-" else qb[2].rsplit(":", 1)[0]
+                if qa[2] != mr_ and not (len(cands) > 1 and qa[2] != "-" and mr_ != "-"):
+                    d.append("%s: blob_from_backend read %s %s impl %s model %s" % (mname, "TD"[tp], i, qa[2], qb[2]))
         if with_iter and a["iter"] != b["iter"]:
             d.append("%s: into_iter impl %s model %s" % (mname, a["iter"][:6], b["iter"][:6]))
     return d
@@ -277,17 +310,19 @@ def run(ctx):
     r = vlib.proof_stage(ctx)
     if err:
         r["ok"] = False
-        r["failures"].append("fact extraction from packfile.rs/indexfile.rs/index.rs failed: " + err)
+        r["failures"].append("fact extraction from packfile.rs/indexfile.rs/index.rs/prune.rs/blob.rs/decrypt.rs failed: " + err)
     cov["extracted_facts"] = meta
     cov["trusted_base"] += ["props/C17/extract.py (pack-size constants, type of an empty pack, sections loaded by GlobalIndex::new_from_collector -> Extracted.v)",
-                            "crates/core/src/verif_hooks/c17.rs (thin wrappers: IndexCollector::new/extend/into_index, ReadIndex, IntoIterator, GlobalIndex::new_from_index, save_file, Repository::index)"]
+                            "crates/core/src/verif_hooks/c17.rs (thin wrappers: IndexCollector::new/extend/into_index, the collector loop of prune, ReadIndex incl. typed wrappers and blob_from_backend, IntoIterator, GlobalIndex::new_from_index, save_file, Repository::index)", "harness/src/e2e.rs RecBackend (records read_partial calls)"]
     ctx.assumptions += [
         "the sort in into_index / into_iter is any function returning a sorted permutation (sort_ok); rayon's par_sort_unstable(_by_key) is assumed to be one (theorems quantify over all such functions; the executable instance is the standard-library merge sort, proved correct)",
         "slice::binary_search_by is the size-halving loop of the pinned toolchain (transcribed as Model.bs_loop); the theorems only use that it returns an index holding an equal key iff one exists, so they hold for any correct binary search",
         "ids are natural numbers ordered like the 32-byte arrays (lexicographic byte order = numeric order)",
-        "u32 additions in PackHeaderRef::pack_size are the checked additions of the debug build (model result None = panic); in a release build they wrap and total_size then differs from the unbounded sum — total_size_sum is stated for the non-overflowing case (index_of = Some)",
+        "u32 additions in PackHeaderRef::pack_size: both builds are modelled — checked (debug, None = panic) and wrapping (release, pack_size_wrapping); equal whenever the checked build does not panic (release_equals_checked); otherwise the release build reports totals with sizes modulo 2^32 (release_build_characterisation, release_total_size_sum_refuted); both builds of the harness are run",
+        "prune's own index is modelled from the facts regenerated from PrunePlan::from_prune_options (IndexType, the two extend calls); tied to prune.rs by the extractor and by running the real Repository::prune_plan on repositories with crafted index files and one snapshot per queried tree (the pack read it issues shows what its index found); its totals (PackSizer input) are only compared through the hook that repeats the loop",
+        "blob_from_backend: backend read and decryption/decompression are arbitrary functions; only which pack/cacheable/offset/length/uncompressed_length reach them is stated (the recording backend sees pack, cacheable, offset, length)",
         "the type of a pack is the type of its first blob (IndexPack::blob_type); for packs that mix blob types the reading by the blob's own type differs (has_iff_listed_mixed_pack_refuted); packs written by the library are homogeneous",
-        "u64 total_size and u32 pack counters cannot overflow below 2^32 packs per type (Model checks the pack counter; total_size < 2^64 follows)",
+        "explicit pack sizes are u32 values (type of IndexPack::size): premise sizes_are_u32 of total_size_no_overflow",
         "serde/JSON decoding of index files is outside the model (the harness feeds JSON text; the model gets the same numbers)",
     ]
     # 3. builds
@@ -299,7 +334,7 @@ def run(ctx):
             r["ok"] = False; r["failures"].append("extracted model no longer builds: " + str(e)[-500:])
     impl = vlib.build_harness("c17")
     # 4. cases
-    ncases = 20000 if ctx.thorough() else 2000
+    ncases = 20000 if ctx.thorough() else 1500
     maxblobs = 400
     cases = []
     corpus = os.path.join(ctx.pdir, "corpus.txt")
@@ -324,8 +359,8 @@ def run(ctx):
             mpart, _, opart = mo.partition(" | ")
             if io.strip() == "panic" or not opart:
                 mism.append((ln, ["unparsable result: impl=%r model=%r" % (io[:100], mo[:100])])); continue
-            ir = parse_modes(io, nq); mr = parse_modes(mpart, nq); orc = parse_oracle(opart, nq)
-            nq_total += nq * 3
+            ir = parse_modes(io, nq); mr = parse_modes(mpart, nq, ntok=3); orc = parse_oracle(opart, nq)
+            nq_total += nq * 4
             for ft in case_features(c): hist[ft] = hist.get(ft, 0) + 1
             nb = sum(len(p["blobs"]) for f in c["files"] for p in f["packs"] + f["del"])
             k = "blobs_" + ("0" if nb == 0 else "1-10" if nb <= 10 else "11-100" if nb <= 100 else "101-400")
@@ -333,6 +368,8 @@ def run(ctx):
             k = "files_%s" % (len(c["files"]) if len(c["files"]) < 3 else "3+")
             hist[k] = hist.get(k, 0) + 1
             if not orc["noov"]: hist["pack_size_overflow"] = hist.get("pack_size_overflow", 0) + 1
+            if orc["noov"] and not orc["anoov"]: hist["overflow_only_in_marked_pack"] = hist.get("overflow_only_in_marked_pack", 0) + 1
+            if any(o["listed_any"] and not o["listed"] for o in orc["q"]): hist["query_listed_only_in_marked_pack"] = hist.get("query_listed_only_in_marked_pack", 0) + 1
             if any(o["listed"] != o["lbt"] for o in orc["q"]): hist["blob_type_reading_differs"] = hist.get("blob_type_reading_differs", 0) + 1
             if any(len(o["cands"]) > 1 for o in orc["q"]): hist["query_with_several_listings"] = hist.get("query_with_several_listings", 0) + 1
             if any(o["listed"] for o in orc["q"]) and any(not o["listed"] for o in orc["q"]) and orc["noov"]:
@@ -348,6 +385,31 @@ def run(ctx):
                     nondet_ok += sum(1 for qa, qb in zip(a["q"], b["q"]) if qa[1] != qb[1])
             if len(samples) < 3 and 0 < nb <= 6 and nq <= 8 and orc["noov"]:
                 samples.append({"case": ln, "impl": io, "model": mpart, "oracle": opart})
+    # 4b. release build of the harness (u32 additions wrap): every overflow case + a sample of the others
+    rel_n = rel_over = 0
+    rel_viol, rel_mism = [], []
+    if model and not ctx.replay:
+        impl_rel = vlib.build_harness("c17", release=True)
+        want = 2000 if ctx.thorough() else 150
+        rl, rc = [], []
+        for c, ln, mo in zip(cases, lines, model_out):
+            opart = mo.partition(" | ")[2].split()
+            over = len(opart) > 10 and (opart[3] != "1" or opart[10] != "1")
+            if over or len(rl) < want:
+                rl.append(ln); rc.append(c); rel_over += 1 if over else 0
+        ro = run_lines(impl_rel, rl)
+        rm = run_lines(model, rl, "release")
+        for c, ln, io, mo in zip(rc, rl, ro, rm):
+            nq = len(c["queries"])
+            mpart, _, opart = mo.partition(" | ")
+            if io.strip() == "panic" or not opart:
+                rel_mism.append((ln, ["unparsable result (release): impl=%r model=%r" % (io[:100], mo[:100])])); continue
+            ir = parse_modes(io, nq); mr = parse_modes(mpart, nq, ntok=3); orc = parse_oracle(opart, nq)
+            rel_n += 1
+            for what, detail in check_against_oracle(c, ir, orc, MODES, release=True):
+                rel_viol.append((what + " (release build)", ln, detail, orc))
+            d = diff_model(c, ir, mr, orc, MODES)
+            if d: rel_mism.append((ln, ["release build: " + x for x in d]))
     # 5. end to end: the index a repository loads itself
     e2e_n = 0
     e2e_viol, e2e_mism = [], []
@@ -373,32 +435,72 @@ def run(ctx):
                 mpart, _, opart = mo.partition(" | ")
                 if io.strip() == "panic":
                     e2e_mism.append((ln, ["e2e harness panicked"])); continue
-                ir = parse_modes(io, nq, with_iter=False); mr = parse_modes(mpart, nq)[:2]; orc = parse_oracle(opart, nq)
+                ir = parse_modes(io, nq, with_iter=False, ntok=3); mr = parse_modes(mpart, nq, ntok=3)[:2]; orc = parse_oracle(opart, nq)
                 e2e_n += 1
                 for what, detail in check_against_oracle(c, ir, orc, MODES[:2]):
                     e2e_viol.append((what + " (index loaded by Repository::to_indexed/to_indexed_ids)", ln, detail, orc))
                 d = diff_model(c, ir, mr, orc, MODES[:2], with_iter=False)
                 if d: e2e_mism.append((ln, d))
+    # 5b. prune's own index observed through the real Repository::prune_plan
+    pr_n = 0
+    pr_viol, pr_mism = [], []
+    if model and not ctx.replay:
+        want = 200 if ctx.thorough() else 40
+        sub, sublines = [], []
+        for c, mo in zip(cases, model_out):
+            if len(sub) >= want: break
+            op = mo.partition(" | ")[2].split()
+            if len(op) < 11 or op[10] != "1" or not any(tp == 0 for tp, _ in c["queries"]): continue
+            seen, fs = set(), []
+            for f in c["files"]:
+                key = json.dumps(f, sort_keys=True)
+                if key not in seen:
+                    seen.add(key); fs.append(f)
+            c2 = {"files": fs, "queries": c["queries"]}
+            sub.append(c2); sublines.append(line_of(c2))
+        if sub:
+            po = run_lines(impl, sublines, "prune")
+            pm = run_lines(model, sublines)
+            for c, ln, io, mo in zip(sub, sublines, po, pm):
+                nq = len(c["queries"])
+                mpart, _, opart = mo.partition(" | ")
+                mr = parse_modes(mpart, nq, ntok=3); orc = parse_oracle(opart, nq)
+                toks = io.split()
+                if not toks or toks[0] != "P" or mr[3] == "panic":
+                    pr_mism.append((ln, ["prune_plan harness: %r" % io[:120]])); continue
+                pr_n += 1
+                tq = [(k, i) for k, (tp, i) in enumerate(c["queries"]) if tp == 0][:8]
+                for (k, i), tok in zip(tq, toks[1:]):
+                    rr = tok.split("=", 1)[1]
+                    o = orc["q"][k]
+                    if (rr != "-") != o["listed_any"]:
+                        pr_viol.append(("prune's index finds a tree differently from 'listed anywhere (packs or packs_to_delete)'", ln, "tree %s: read=%s listed_anywhere=%s" % (i, rr, o["listed_any"]), orc))
+                    elif rr != "-" and (not rr.startswith("1:") or not any(cd.rsplit(":", 1)[0] == rr[2:] for cd in o["cands_any"])):
+                        pr_viol.append(("prune reads a tree at a location that is not one of its listings", ln, "tree %s: read=%s listings=%s" % (i, rr, o["cands_any"]), orc))
+                    m_r = mr[3]["q"][k][2]
+                    m_r = m_r if m_r == "-" else m_r.rsplit(":", 1)[0]
+                    if rr != m_r and not (len(o["cands_any"]) > 1 and rr != "-" and m_r != "-"):
+                        pr_mism.append((ln, ["prune_plan: tree %s read impl %s model %s" % (i, rr, m_r)]))
     cov.update({
-        "evaluations": len(cases) + e2e_n, "distinct_nontrivial": len(nontriv),
-        "rule": "case = 0-5 index files x 0-6 packs + 0-2 packs_to_delete each, <= %d blobs, ids drawn from a small pool (duplicates across packs and files, same id under both types, ids adjacent in the first and in the last byte, 0 and max), empty packs, explicit and header-derived pack sizes incl. u32 overflow, occasional mixed-type packs; every pool id queried under both types plus absent neighbours, in all three IndexTypes; non-trivial = at least one query listed and one not listed, no overflow; distinct by case text" % maxblobs,
+        "evaluations": len(cases) + e2e_n + rel_n + pr_n, "distinct_nontrivial": len(nontriv),
+        "rule": "case = 0-5 index files x 0-6 packs + 0-2 packs_to_delete each, <= %d blobs, ids drawn from a small pool (duplicates across packs and files, same id under both types, ids adjacent in the first and in the last byte, 0 and max), empty packs, explicit and header-derived pack sizes incl. u32 overflow, occasional mixed-type packs; every pool id queried under both types plus absent neighbours, in all three IndexTypes and in the index prune builds for itself (both sections, trees only); the overflow cases and a sample of the others also against a release build of the harness (wrapping u32); repository cases also issue blob_from_backend over a recording backend; non-trivial = at least one query listed and one not listed, no overflow; distinct by case text" % maxblobs,
         "samples": samples, "distribution": hist,
         "queries_evaluated": nq_total,
-        "traces_validated_against_impl": len(cases) + e2e_n,
-        "e2e_repository_cases": e2e_n,
-        "disagreements_checked": len(mism) + len(viol) + len(e2e_mism) + len(e2e_viol),
+        "traces_validated_against_impl": len(cases) + e2e_n + rel_n + pr_n,
+        "e2e_repository_cases": e2e_n, "prune_plan_cases": pr_n, "release_build_cases": rel_n, "release_build_overflow_cases": rel_over,
+        "disagreements_checked": len(mism) + len(viol) + len(e2e_mism) + len(e2e_viol) + len(rel_mism) + len(rel_viol) + len(pr_mism) + len(pr_viol),
         "get_id_differences_within_candidate_set": nondet_ok,
-        "model_impl_mismatches": len(mism) + len(e2e_mism), "oracle_violations": len(viol) + len(e2e_viol)})
+        "model_impl_mismatches": len(mism) + len(e2e_mism) + len(rel_mism) + len(pr_mism), "oracle_violations": len(viol) + len(e2e_viol) + len(rel_viol) + len(pr_viol)})
     # 6. decide
     seen_what = set()
-    for what, ln, detail, orc in (viol + e2e_viol)[:50]:
+    for what, ln, detail, orc in (viol + e2e_viol + rel_viol + pr_viol)[:50]:
         if what in seen_what: continue
         seen_what.add(what)
         ctx.violation(what, {"case": ln, "detail": detail,
                              "how_to_replay": "echo '<case>' | <target>/debug/c17 -   (format: harness/src/bin/c17.rs); ./check C17 --replay <this file>"},
                       signature=None)
-    allm = mism + e2e_mism
-    if allm and not (viol or e2e_viol):
+    allm = mism + e2e_mism + rel_mism + pr_mism
+    if allm and not (viol or e2e_viol or rel_viol or pr_viol):
         ctx.violation("correspondence broken: extracted index model disagrees with the implementation (%d cases) although every answer still matches the index files" % len(allm),
                       {"correspondence": "props/C17 Exec.index_of/has/get_id/total_size/into_iter vs IndexCollector/Index (hook c17)",
                        "first": {"case": allm[0][0], "differences": allm[0][1][:5]}}, no_input=True)
